@@ -114,6 +114,25 @@ def r14_2(ctx):
         ctx.check(from_min and f.dominates(bi, runs[0]), "store-effective", stmt_loc(f, bi, si),
                   "the min-selected timeout is stored into testcase.config.timeout and dominates Runner::run",
                   "testcase.config.timeout is not set from the min-selected value before Runner::run (%s)" % shown[:200])
+        # .. and it is that value itself: nothing is subtracted from / added to the selected limit on the way (time spent elsewhere, e.g. in
+        # `wait`, is accounted for by the deadline behind the document candidate, never by shrinking the per-test-case limit)
+        arith = []
+        for n in src.walk():
+            if n.kind == "bin" and n.a in ("Sub", "SubWithOverflow", "Add", "AddWithOverflow", "Mul", "MulWithOverflow", "Div"):
+                arith.append(n.a)
+            if n.kind == "call" and any(w in method_name(n.a).split("::")[-1] for w in ("sub", "add", "mul", "div", "elapsed", "min_by")) and \
+                    method_name(n.a) not in ("Iterator::min_by_key",):
+                arith.append(method_name(n.a))
+            if n.kind == "agg" and isinstance(n.a, tuple) and str(n.a[0]).startswith("closure "):
+                cb = ctx.prog.body_by_def(n.a[0][len("closure "):], f.crate)
+                if cb is not None:
+                    for _, t2 in cb.calls():
+                        last = mname(t2).split("::")[-1]
+                        if any(w in last for w in ("sub", "add", "mul", "div", "elapsed")):
+                            arith.append("closure:" + mname(t2))
+        ctx.check(not arith, "store-unmodified", stmt_loc(f, bi, si), "the stored limit is the selected candidate itself (no arithmetic on the way)",
+                  "the selected timeout is modified before it is stored (%s): a per-test-case `timeout` is shortened by time that does not count against it, "
+                  "a command inside its limits is reported as timed out" % sorted(set(arith)))
     # SubprocessRunner::run: limit_time(t) exactly on the Some(t) edge
     r = ctx.prog.impl_fn("SubprocessRunner", "Runner", "run")
     orr = Origins(r)
